@@ -31,3 +31,121 @@ package tally
 //@   loop 2 invariant @l2b forall k string :: seen(k) ==> result[k] == tagsRight[k] && k in tagsRight
 //@   loop 2 invariant @l2c forall k string :: k in tagsLeft && !seen(k) ==> result[k] == tagsLeft[k]
 //@   loop 2 invariant @l2d result != nil && result != tagsLeft && result != tagsRight
+
+// ---------------------------------------------------------------------------
+// C03 / C20: histograms
+
+//@ pred histWF(h *histogram) { h != nil && len(h.buckets) == len(h.samples) && len(h.buckets) >= 1 && (forall i int :: 0 <= i && i < len(h.samples) ==> h.samples[i].counter != nil) && (forall i, j int :: 0 <= i && i < j && j < len(h.samples) ==> h.samples[i].counter != h.samples[j].counter) }
+//@ pred valueWF(h *histogram) { histWF(h) && h.buckets[len(h.buckets)-1].valueUpperBound == math.MaxFloat64 && (forall i int :: 0 <= i && i < len(h.buckets) ==> !isNaN(h.buckets[i].valueUpperBound)) && (forall i, j int :: 0 <= i && i <= j && j < len(h.buckets) ==> h.buckets[i].valueUpperBound <= h.buckets[j].valueUpperBound) }
+//@ pred durationWF(h *histogram) { histWF(h) && h.buckets[len(h.buckets)-1].durationUpperBound == math.MaxInt64 && (forall i, j int :: 0 <= i && i <= j && j < len(h.buckets) ==> h.buckets[i].durationUpperBound <= h.buckets[j].durationUpperBound) }
+//@ pred cnt(h *histogram, i int) { h.samples[i].counter.curr }
+
+//@ func (*histogram).RecordValue
+//@   property C03
+//@   requires histWF(h)
+//@   requires h.htype == valueHistogramType ==> valueWF(h)
+//@   modifies all counter.curr
+//@   witness b int = idx
+//@   ensures @quiet len(calls) == old(len(calls))
+//@   ensures @wrong_type_ignored h.htype != valueHistogramType ==> (forall c *counter :: c.curr == old(c.curr))
+//@   ensures @one_bucket h.htype == valueHistogramType ==> 0 <= b && b < len(h.buckets) && cnt(h, b) == wrap64(old(cnt(h, b)) + 1) && (forall c *counter :: c != h.samples[b].counter ==> c.curr == old(c.curr))
+//@   case finite: requires !isNaN(value) && !isInf(value, 1)
+//@     ensures @least_upper h.htype == valueHistogramType ==> h.buckets[b].valueUpperBound >= value && (forall k int :: 0 <= k && k < b ==> h.buckets[k].valueUpperBound < value)
+//@   case posinf: requires isInf(value, 1)
+//@     ensures @last_bucket h.htype == valueHistogramType ==> b == len(h.samples) - 1
+//@   case nan: requires isNaN(value)
+//@     ensures @last_bucket h.htype == valueHistogramType ==> b == len(h.samples) - 1
+
+//@ func (*histogram).RecordDuration
+//@   property C03
+//@   requires histWF(h)
+//@   requires h.htype == durationHistogramType ==> durationWF(h)
+//@   modifies all counter.curr
+//@   witness b int = idx
+//@   ensures @quiet len(calls) == old(len(calls))
+//@   ensures @wrong_type_ignored h.htype != durationHistogramType ==> (forall c *counter :: c.curr == old(c.curr))
+//@   ensures @one_bucket h.htype == durationHistogramType ==> 0 <= b && b < len(h.buckets) && cnt(h, b) == wrap64(old(cnt(h, b)) + 1) && (forall c *counter :: c != h.samples[b].counter ==> c.curr == old(c.curr))
+//@   ensures @least_upper h.htype == durationHistogramType ==> h.buckets[b].durationUpperBound >= value && (forall k int :: 0 <= k && k < b ==> h.buckets[k].durationUpperBound < value)
+
+//@ func (*counter).Inc
+//@   property C01
+//@   requires c != nil
+//@   modifies c.curr
+//@   ensures @added c.curr == wrap64(old(c.curr) + v)
+//@   ensures @prev_kept c.prev == old(c.prev)
+//@   ensures @quiet len(calls) == old(len(calls))
+
+// ---------------------------------------------------------------------------
+// C10: timers, stopwatches
+
+//@ extern interface StopwatchRecorder
+//@ extern interface Timer
+//@ extern interface Counter
+//@ assume Timer.Start ensures result.recorder != nil
+
+//@ pred one_more() { len(calls) == old(len(calls)) + 1 && (forall j int :: 0 <= j && j < old(len(calls)) ==> calls[j] == old(calls[j])) }
+//@ pred quiet() { len(calls) == old(len(calls)) }
+//@ pred timerWF(t *timer) { t != nil && (t.cachedTimer != nil || t.reporter != nil) }
+
+//@ func newTimer
+//@   property C10
+//@   allocs
+//@   ensures @fresh result != nil && fresh(result)
+//@   ensures @fields result.name == name && result.tags == tags && same(result.cachedTimer, cachedTimer)
+//@   ensures @reporter_kept r != nil ==> same(result.reporter, r)
+//@   ensures @sink r == nil ==> is(result.reporter, *timerNoReporterSink) && dyn(result.reporter, *timerNoReporterSink) != nil && dyn(result.reporter, *timerNoReporterSink).timer == result
+//@   ensures @wf timerWF(result)
+//@   ensures @quiet quiet()
+
+//@ func (*timer).Record
+//@   property C10
+//@   emits
+//@   requires timerWF(t)
+//@   requires !is(t.reporter, *timerNoReporterSink) || t.cachedTimer != nil
+//@   ensures @exactly_one one_more()
+//@   ensures @cached_first t.cachedTimer != nil ==> calls[old(len(calls))] == ev(CachedTimer.ReportTimer, t.cachedTimer, interval)
+//@   ensures @plain t.cachedTimer == nil ==> calls[old(len(calls))] == ev(StatsReporter.ReportTimer, t.reporter, t.name, t.tags, interval)
+
+//@ func (*timerNoReporterSink).ReportTimer
+//@   property C10
+//@   allocs
+//@   requires r != nil && r.timer != nil
+//@   modifies r.timer.unreported.values, elems(r.timer.unreported.values)
+//@   ensures @appended len(r.timer.unreported.values) == old(len(r.timer.unreported.values)) + 1
+//@   ensures @last r.timer.unreported.values[old(len(r.timer.unreported.values))] == interval
+//@   ensures @order_kept forall j int :: 0 <= j && j < old(len(r.timer.unreported.values)) ==> r.timer.unreported.values[j] == old(r.timer.unreported.values[j])
+//@   ensures @quiet quiet()
+
+//@ func (*timer).Start
+//@   property C10
+//@   emits
+//@   requires t != nil
+//@   ensures @one_clock_read one_more() && calls[old(len(calls))] == evn("time.Now") && result.start == res0(old(len(calls)))
+//@   ensures @recorder is(result.recorder, *timer) && dyn(result.recorder, *timer) == t
+
+//@ func (*timer).RecordStopwatch
+//@   property C10
+//@   emits
+//@   requires timerWF(t)
+//@   requires !is(t.reporter, *timerNoReporterSink) || t.cachedTimer != nil
+//@   ensures @two_events len(calls) == old(len(calls)) + 2 && (forall j int :: 0 <= j && j < old(len(calls)) ==> calls[j] == old(calls[j]))
+//@   ensures @elapsed_cached t.cachedTimer != nil ==> calls[old(len(calls)) + 1] == ev(CachedTimer.ReportTimer, t.cachedTimer, timeSub(res0(old(len(calls))), stopwatchStart))
+//@   ensures @elapsed_plain t.cachedTimer == nil ==> calls[old(len(calls)) + 1] == ev(StatsReporter.ReportTimer, t.reporter, t.name, t.tags, timeSub(res0(old(len(calls))), stopwatchStart))
+
+//@ func NewStopwatch
+//@   property C10
+//@   ensures @fields result.start == start && same(result.recorder, r)
+//@   ensures @quiet quiet()
+
+//@ func (Stopwatch).Stop
+//@   property C10
+//@   emits
+//@   requires sw.recorder != nil
+//@   ensures @one one_more() && calls[old(len(calls))] == ev(StopwatchRecorder.RecordStopwatch, sw.recorder, sw.start)
+
+//@ func (*histogram).Start
+//@   property C10
+//@   emits
+//@   requires h != nil
+//@   ensures @one_clock_read one_more() && calls[old(len(calls))] == evn("time.Now") && result.start == res0(old(len(calls)))
+//@   ensures @recorder is(result.recorder, *histogram) && dyn(result.recorder, *histogram) == h
